@@ -5,7 +5,7 @@ from gens import *
 
 BINS = ["hb_block", "hb_stream", "hb_cts"]
 RULE = ("cases = every cloneable type (block modes, buffered CFB, OfbCore, CtrCore x6 and the Ctr/Ofb wrappers, cts variants) x "
-        "cipher config; a history h1, a clone, then histories h2 and h3 applied to original and clone in a random interleaving, "
+        "cipher config; a history h1, a clone (Clone::clone, or Clone::clone_from into a used instance under another key), then histories h2 and h3 applied to original and clone in a random interleaving, "
         "with a bystander instance under another key used in between; predicate (implementation only): the outputs equal those of "
         "two fresh instances replaying h1;h2 and h1;h3 in the same case; non-trivial = non-empty data")
 
@@ -55,14 +55,21 @@ def rand_ops(rng, kind, bs, w, count):
     return ops
 
 
-def build(c, rng, newline, kind, bs, w):
+def build(c, rng, newline, kind, bs, w, newline_other):
     h1 = rand_ops(rng, kind, bs, w, rng.randint(0, 3))
     h2 = rand_ops(rng, kind, bs, w, rng.randint(1, 4))
     h3 = rand_ops(rng, kind, bs, w, rng.randint(1, 4))
     c.op(newline % "orig")
     for o in h1:
         c.op(o % "orig")
-    c.op("clone orig cl")
+    if rng.random() < 0.4:
+        # Clone::clone_from into an existing, used instance of the same type under another key/IV
+        c.op(newline_other % "cl")
+        for o in rand_ops(rng, kind, bs, w, rng.randint(0, 2)):
+            c.op(o % "cl")
+        c.op("clonefrom cl orig")
+    else:
+        c.op("clone orig cl")
     # interleave h2 on the original and h3 on the clone
     io, ic, seq = [], [], []
     a, b = list(h2), list(h3)
@@ -94,7 +101,8 @@ def generate(rng, tier):
         bs, w, dm = pick_cfg(rng, BLOCK_CFGS, i // len(BLOCK_KINDS))
         key, iv = rbytes_n(rng, 8), rbytes_n(rng, bs * (2 if kind.startswith("ige") else 1))
         c = Case("c16_b%d" % i, "block", bs, w, dm, tags=dict(kind=kind))
-        build(c, rng, "new %%s %s new %s %s" % (kind, hx(key), hx(iv)), kind, bs, w)
+        build(c, rng, "new %%s %s new %s %s" % (kind, hx(key), hx(iv)), kind, bs, w,
+              "new %%s %s new %s %s" % (kind, hx(rbytes_n(rng, 8)), hx(rbytes_n(rng, len(iv)))))
         cases.append(c)
     allk = stream_cfgs_for(lambda k: k != "belt")       # BeltCtrCore is not Clone
     for i in range(n):
@@ -103,7 +111,8 @@ def generate(rng, tier):
         core = i % 2 == 0
         c = Case("c16_s%d" % i, "stream", bs, w, dm, tags=dict(kind=kind + ("_core" if core else "")))
         hk = ("ofbcore" if kind == "ofb" else "core") if core else ("ofbwrap" if kind == "ofb" else "wrap")
-        build(c, rng, "new %%s %s%s new %s %s" % (kind, "_core" if core else "", hx(key), hx(iv)), hk, bs, w)
+        build(c, rng, "new %%s %s%s new %s %s" % (kind, "_core" if core else "", hx(key), hx(iv)), hk, bs, w,
+              "new %%s %s%s new %s %s" % (kind, "_core" if core else "", hx(rbytes_n(rng, 8)), hx(rbytes_n(rng, len(iv)))))
         cases.append(c)
     for i in range(n // 3):
         bs, w, dm = pick_cfg(rng, CTS_CFGS, i // 6)
@@ -112,7 +121,11 @@ def generate(rng, tier):
         iv = rbytes_n(rng, bs) if kind.startswith("cbc") else b""
         c = Case("c16_t%d" % i, "cts", bs, w, dm, tags=dict(kind=kind))
         c.op("new orig %s new %s %s" % (kind, hx(key), hx(iv)))
-        c.op("clone orig cl")
+        if i % 2:
+            c.op("new cl %s new %s %s" % (kind, hx(rbytes_n(rng, 8)), hx(rbytes_n(rng, len(iv)))))
+            c.op("clonefrom cl orig")
+        else:
+            c.op("clone orig cl")
         c.op("new other %s new %s %s" % (kind, hx(rbytes_n(rng, 8)), hx(rbytes_n(rng, len(iv)))))
         m1, m2 = rbytes_n(rng, rng.randint(bs, 4 * bs)), rbytes_n(rng, rng.randint(bs, 4 * bs))
         a1 = c.op("cts_enc orig ip %s" % hx(m1))
